@@ -28,10 +28,17 @@ Definition go_make (n : Z) : res nat :=
 (* makeSupportedVersions, :892-898:
      a := make([]uint16, maxVers-minVers+1)        // uint16 arithmetic
      for i := range a { a[i] = maxVers - uint16(i) } *)
+(* the loop, with the index kept in N: a[i] = maxVers - uint16(i) *)
+Fixpoint msv_fill (len : nat) (i : N) (maxVers : N) : list N :=
+  match len with
+  | O => []
+  | S k => (maxVers + 65536 - i mod 65536) mod 65536 :: msv_fill k (i + 1) maxVers
+  end.
+
 Definition make_supported_versions (minVers maxVers : N) : res (list N) :=
   let n := (maxVers + 65536 - minVers + 1) mod 65536 in
   do len <- go_make (Z.of_N n);
-  Ok (map (fun i => (maxVers + 65536 - N.of_nat i mod 65536) mod 65536) (seq 0 len)).
+  Ok (msv_fill len 0 maxVers).
 
 (* findVersionsInSupportedVersionsExtensions, :755-771 *)
 Fixpoint find_versions (vs : list N) (minV maxV : N) : N * N :=
